@@ -50,7 +50,7 @@ def gen(tier, rng):
     # (c) grammar-level single faults with the documented error class
     for fault, cls in defgen.FAULTS.items():
         for rep in range(2 if tier == "quick" else 8):
-            plan = ["dynamic"] if fault in ("oversubscribed_ll", "oversubscribed_cl", "no_eob", "rep16_first", "rep_past_end") else \
+            plan = ["dynamic"] if fault in ("oversubscribed_ll", "oversubscribed_cl", "no_eob", "rep16_first", "rep_past_end") or fault.startswith("extra_code") else \
                    ["fixed"] if fault in ("dist_sym_30", "ll_sym_286") else ["stored"] if fault == "len_nlen" else ["fixed", "dynamic"]
             st = defgen.too_far_stream(rng) if fault == "dist_too_far" else defgen.make_stream(rng, plan, fault=fault, fault_block=0 if fault != "btype3" else rng.choice([0, 1]))
             runs(st, 0, {"family": "fault:" + fault, "expect_ret": CODE[cls]}, inflfam.KERNEL_CPUS)
